@@ -938,6 +938,7 @@ func init() {
 		runSysLookups(c)
 		// lookups that miss while the control plane is unreachable, more of them than the request channel holds
 		outage(c, 1, 1040)
+		slowOutage(c)
 		// the request path at goroutine granularity: the bounded channel during an outage and during a reconnect
 		flowCase(c, "outage", 1040)
 		flowCase(c, "flood", 1040)
